@@ -72,7 +72,7 @@ class SourceIndex:
             src = inspect.getsource(fn)
         except (OSError, TypeError) as e:
             raise Unsupported("no source for %r: %s" % (fn, e))
-        src = textwrap.dedent(src)
+        src = _dedent_to_first_line(src)
         tree = ast.parse(src)
         node = tree.body[0]
         if not isinstance(node, (ast.FunctionDef, ast.Lambda)):
@@ -89,6 +89,22 @@ class SourceIndex:
 
     def touch(self, info):
         self.used[info["qualname"]] = info
+
+
+def _dedent_to_first_line(src):
+    """textwrap.dedent that is not defeated by comment lines starting in column 0 inside an indented method"""
+    lines = src.split("\n")
+    first = next((l for l in lines if l.strip()), "")
+    ind = len(first) - len(first.lstrip())
+    out = []
+    for l in lines:
+        if l[:ind].strip() == "":
+            out.append(l[ind:])
+        elif l.lstrip().startswith("#"):
+            out.append("")          # a comment line to the left of the function's own indentation
+        else:
+            out.append(l)
+    return "\n".join(out)
 
 
 SOURCES = SourceIndex()
@@ -390,7 +406,7 @@ class Interp:
             if m is not None:
                 return m(self, args, kwargs)
             if isinstance(f, types.BuiltinMethodType) and isinstance(f.__self__, str) and f.__name__ == "format":
-                return SymStr((f.__self__,) + tuple(args) + tuple(kwargs.values()))
+                return SymStr((f.__self__,) + tuple(args) + tuple(kwargs.values()), fmt=f.__self__, args=args, kwargs=kwargs)
             if isinstance(f, types.BuiltinMethodType) and f.__self__ is not None and \
                     not isinstance(f.__self__, types.ModuleType):
                 return self._container_method(f, args, kwargs)
